@@ -1,6 +1,6 @@
 """C08 - unbonding time-lock and forward-only batch lifecycle (DESIGN 6, C08)."""
 from ..callgraph import explore, storage_effects, site_guarded, written_value_in
-from ..expr import show, find
+from ..expr import show, find, arith_args
 from .common import entry, msg_enum, variant_env, stored, where
 from .hub_common import (receive_handlers, subtree, release_loops, release_guard_preds, history_readers, history_writers,
                          HUBCFG, PARAMS, STATE, BATCH, HISTORY)
@@ -130,8 +130,8 @@ def run(prog, world, sem, rep):
             tv = world.norm(sem.field_of(out, "total_bond_%s_amount" % tk))
             ok = False
             det = show(tv, 4)
-            if tv.op == "call" and tv.info.endswith("checked_sub"):
-                a, b = tv.args
+            if arith_args(tv, "Sub") is not None:
+                a, b = arith_args(tv, "Sub")
                 if plab(a) == ("total_bond_%s_amount" % tk,) and b.op == "bin" and b.info == "Mul":
                     ls = {plab(x) for x in b.args}
                     ok = ls == {(req,), ("%s_exchange_rate" % tk,)}
